@@ -848,6 +848,10 @@ def _or(primary, fallback):
 
 
 def ml_iter(eng, st, fr, t, name, rname, args):
+    if name.endswith("into_iter"):
+        v0 = eng.resolve(st, args[0])
+        if isinstance(v0, AggV) and v0.kind == "array":
+            return NotImplemented  # an array consumed by value yields its items, not references (m_array_into_iter)
     l = _list_of(eng, st, args[0])
     if l is None:
         it = _liter_of(eng, st, args[0])
@@ -1176,7 +1180,14 @@ def _install_itermodels():
 _install_itermodels()
 
 
+from .fdai import m_array_into_iter, m_array_into_next, ARRAY_INTO_ITER
+
+
 def _install_array_mut():
+    k = "core::iter::IntoIterator::into_iter"
+    FOLD_MODELS[k] = _or(m_array_into_iter, FOLD_MODELS.get(k))
+    for k in ("core::iter::Iterator::next", "<core::array::IntoIter<T, N> as core::iter::Iterator>::next"):
+        FOLD_MODELS[k] = _or(m_array_into_next, FOLD_MODELS.get(k))
     FOLD_MODELS["core::slice::iter_mut"] = _or(m_array_iter_mut, FOLD_MODELS.get("core::slice::iter_mut"))
     for k in ("core::iter::Iterator::next", "<core::slice::IterMut<'a, T> as core::iter::Iterator>::next"):
         FOLD_MODELS[k] = _or(m_array_mut_next, FOLD_MODELS.get(k))
